@@ -756,7 +756,7 @@ impl<R: std::io::Read + std::io::Seek, E: crate::byteorder::Endianness> std::io:
                 // (this is a very unusual case)
                 let max_pos: u64 = decoder.total_samples().map(|s| s.get()).ok_or_else(|| {
                     std::io::Error::new(std::io::ErrorKind::NotSeekable, "total samples not known")
-                })?;
+                })? * bytes_per_pcm_frame;
 
                 match pos.cmp(&0) {
                     Ordering::Less => max_pos.checked_sub(pos.unsigned_abs()).ok_or_else(|| {
